@@ -598,6 +598,9 @@ impl FunctionCompiler<'_> {
             } => {
                 let continue_block = self.continues[&label];
 
+                // the blocks between here and the loop are being left, so their defers must run
+                self.run_defers_up_to(label);
+
                 self.builder.ins().jump(continue_block, &[]);
             }
             hir::Stmt::Continue { label: None, .. } => unreachable!(),
@@ -620,32 +623,7 @@ impl FunctionCompiler<'_> {
     fn break_to_label(&mut self, value: Option<Value>, label: hir::ScopeId) {
         let exit_block = self.exits[&label];
 
-        // run all the defers from here, backwards to the one we are breaking out of
-
-        let mut used_frames = Vec::new();
-
-        // todo: don't do popping
-        while let Some(frame) = self.defer_stack.last().cloned() {
-            // the exit block of every Expr::Block contains the instructions for running
-            // the defers. This break instruction jumps to that exit block.
-            // therefore, we only need to insert extra defer handling for everything OTHER
-            // than the block we are breaking to.
-            if let Some(id) = frame.id {
-                if id == label {
-                    break;
-                }
-            }
-
-            // do it in reverse to make sure later defers can still rely on the allocations of
-            // previous defers
-            for defer in frame.defers.iter().rev() {
-                self.compile_expr(*defer);
-            }
-
-            used_frames.push(self.defer_stack.pop().unwrap());
-        }
-
-        self.defer_stack.extend(used_frames.into_iter().rev());
+        self.run_defers_up_to(label);
 
         if let Some(value) = value {
             self.builder
@@ -654,6 +632,35 @@ impl FunctionCompiler<'_> {
         } else {
             self.builder.ins().jump(exit_block, &[]);
         };
+    }
+
+    /// Compiles the defers that have been registered so far in every frame from the top of
+    /// the stack down to and including the frame of `label` (innermost first).
+    ///
+    /// The jump that follows goes *past* the code which runs the defers of a block that is
+    /// left normally, because only the defers reached before the jump may run.
+    /// A loop's frame never holds any defers.
+    fn run_defers_up_to(&mut self, label: hir::ScopeId) {
+        // run all the defers from here, backwards to the one we are breaking out of
+
+        let mut used_frames = Vec::new();
+
+        // todo: don't do popping
+        while let Some(frame) = self.defer_stack.last().cloned() {
+            // do it in reverse to make sure later defers can still rely on the allocations of
+            // previous defers
+            for defer in frame.defers.iter().rev() {
+                self.compile_expr(*defer);
+            }
+
+            used_frames.push(self.defer_stack.pop().unwrap());
+
+            if frame.id == Some(label) {
+                break;
+            }
+        }
+
+        self.defer_stack.extend(used_frames.into_iter().rev());
     }
 
     fn store_default_in_memory(&mut self, expected_ty: Intern<Ty>, memory: MemoryLoc) {
@@ -1333,12 +1340,16 @@ impl FunctionCompiler<'_> {
                 self.func_writer[body_block] = "block_body".into();
                 let exit_block = self.builder.create_block();
                 self.func_writer[exit_block] = "block_exit".into();
+                // breaks jump here, after they have ran the defers which were reached
+                let merge_block = self.builder.create_block();
+                self.func_writer[merge_block] = "block_merge".into();
                 if let Some(ty) = final_ty.into_real_type() {
                     self.builder.append_block_param(exit_block, ty);
+                    self.builder.append_block_param(merge_block, ty);
                 }
                 let scope_id = self.world_bodies[self.loc.file()].block_to_scope_id(expr);
                 if let Some(scope_id) = scope_id {
-                    self.exits.insert(scope_id, exit_block);
+                    self.exits.insert(scope_id, merge_block);
                 }
 
                 self.defer_stack.push(DeferFrame {
@@ -1458,14 +1469,15 @@ impl FunctionCompiler<'_> {
                     }
                 }
 
-                self.builder.switch_to_block(exit_block);
-                self.builder.seal_block(exit_block);
-
                 // unwind our defers
 
                 let defer_frame = self.defer_stack.pop().expect("we just pushed this");
 
-                if !no_eval || scope_id.is_some() {
+                // the exit block is only reached by running off the end of the block
+                if !no_eval {
+                    self.builder.switch_to_block(exit_block);
+                    self.builder.seal_block(exit_block);
+
                     debug_assert_eq!(defer_frame.id, scope_id);
 
                     // do it in reverse to make sure later defers can still rely on the allocations of
@@ -1473,10 +1485,22 @@ impl FunctionCompiler<'_> {
                     for defer in defer_frame.defers.iter().rev() {
                         self.compile_expr(*defer);
                     }
+
+                    if final_ty.into_real_type().is_some() {
+                        let value = self.builder.block_params(exit_block)[0];
+                        self.builder
+                            .ins()
+                            .jump(merge_block, &[BlockArg::Value(value)]);
+                    } else {
+                        self.builder.ins().jump(merge_block, &[]);
+                    }
                 }
 
+                self.builder.switch_to_block(merge_block);
+                self.builder.seal_block(merge_block);
+
                 if final_ty.into_real_type().is_some() {
-                    Some(self.builder.block_params(exit_block)[0])
+                    Some(self.builder.block_params(merge_block)[0])
                 } else {
                     None
                 }
@@ -1603,7 +1627,16 @@ impl FunctionCompiler<'_> {
                 self.builder.switch_to_block(body_block);
                 self.builder.seal_block(body_block);
 
+                // a `break`/`continue` that targets this loop unwinds defers only up to here,
+                // and not the defers of the blocks that contain the loop
+                self.defer_stack.push(DeferFrame {
+                    id: self.world_bodies[self.loc.file()].block_to_scope_id(expr),
+                    defers: Vec::new(),
+                });
+
                 self.compile_expr(body);
+
+                self.defer_stack.pop();
 
                 self.builder.ins().jump(header_block, &[]);
 
